@@ -157,15 +157,22 @@ let c17_judge c obs =
   | L [A "clean"; p], _ ->
     let e = L [A "clean"; sstr (clean_rooted (str p))] in
     if to_string e = to_string obs then "ok" else "bad path-clean-model expected=" ^ to_string e
-  | L [A "get"; A kind; _], L [A "get"; A st; id] ->
+  | L (A "get" :: A kind :: _), L [A "get"; A st; id] ->
+    let second = (kind = "dir2" || kind = "files2") in
     (match id with
      | L [A "out"; f] -> "bad serves-outside-root file=" ^ to_string f ^ " status=" ^ st
+     | L [A "in"; f] when second -> "bad serves-outside-root file=(first-root)" ^ to_string f ^ " status=" ^ st
+     | L [A "in2"; f] when not second -> "bad serves-outside-root file=(second-root)" ^ to_string f ^ " status=" ^ st
+     | L [A "in2"; rel] ->
+       let rel = ascii_of (str rel) in
+       if kind = "files2" && st = "200" && not (ends_with ".css" rel || ends_with ".js" rel) then "bad extension-filter-bypassed served=" ^ rel
+       else "ok"
      | L [A "in"; rel] ->
        let rel = ascii_of (str rel) in
        if kind = "files" && st = "200" && not (ends_with ".css" rel || ends_with ".js" rel) then "bad extension-filter-bypassed served=" ^ rel
        else if kind = "one" && rel <> "a.css" then "bad single-file-handler-serves-another-file served=" ^ rel
        else "ok"
-     | L [A "other"; _] -> if kind = "files" && st = "200" then "bad extension-filter-bypassed served=listing-or-index" else "ok"
+     | L [A "other"; _] -> if (kind = "files" || kind = "files2") && st = "200" then "bad extension-filter-bypassed served=listing-or-index" else "ok"
      | _ -> "bad observation-shape")
   | _ -> "bad observation-shape"
 
